@@ -33,8 +33,6 @@ def enumerate_sites(P, crates=CORE):
                 if PANIC_CALLEES.match(fn):
                     what = ("call", fn)
             if what:
-                if t.get("exp") and what[0] == "call" and "fmt" in what[1]:
-                    continue
                 k = (what[0], what[1])
                 counts[k] = counts.get(k, 0) + 1
                 sites.append({"fn": key, "kind": what[0], "what": what[1], "ord": counts[k] - 1, "span": t.get("sp"), "exp": bool(t.get("exp")), "block": bi, "crate": body["crate"]})
